@@ -3,6 +3,7 @@ Layer 1 (dispatch loop): Model/Sched.v, Proofs/SchedP.v, Props/C01.v."""
 import json
 
 import engine
+import propcommon
 import projgen
 import runoracle
 import sim
@@ -42,6 +43,7 @@ def check(run):
         if oc[0] in ("hang", "sched_abort"):
             run.violation("run-does-not-terminate", "the run does not terminate when user code raises a BaseException: %s" % (oc[1][:200],),
                           {"case": c, "outcome": oc})
+    propcommon.search_failing_schedule(run, cases, runoracle.c01_oracle, results)
     run.coverage["rule"] = ("seeded random projects (nested suites, empty suites, disabled tests/suites, depends_on, fixtures of 4 "
                             "scopes, hooks, scripts with failures of every kind, user threads) run by the real runner under a "
                             "deterministic scheduler with random/biased schedules and 1..4 (thorough: ..8) threads; "
